@@ -66,7 +66,7 @@ class Worker(threading.Thread):
         b = lrv.BUILDS[self.build]
         self.scratch = lrv.make_scratch("%s-w%d" % (self.prop, self.idx))
         files = [f for f in self.files if f["anchor"].split("/")[0] in pkg_dirs_for(b["package"])]
-        self.copies = lrv.apply_overlay(self.scratch, files, b["swap"])
+        self.copies = lrv.apply_overlay(self.scratch, files, b["swap"], b.get("edits", ()))
         ht = max([h.timeout or TIER_TIMEOUT[self.tier] for h in self.hs])
         cmd = lrv.kani_cmd(self.build, [h.id for h in self.hs],
                            os.path.join(self.scratch, "target"), ht)
@@ -190,7 +190,7 @@ def cmd_replay(prop, path):
     try:
         b = lrv.BUILDS[build]
         fs = [f for f in files if f["anchor"].split("/")[0] in pkg_dirs_for(b["package"])]
-        copies = lrv.apply_overlay(scratch, fs, b["swap"])
+        copies = lrv.apply_overlay(scratch, fs, b["swap"], b.get("edits", ()))
         cp = copies[os.path.join(VERIF, hfile)]
         body = text.split("\n", 3)[3]
         with open(cp, "a") as fh:
